@@ -460,7 +460,13 @@ func (g *Generator) generateTypeName(t reflect.Type) string {
 
 func (g *Generator) generateCycleSchemaRef(t reflect.Type, schema *openapi3.Schema) *openapi3.SchemaRef {
 	var typeName string
-	switch t.Kind() {
+	kind := t.Kind()
+	if t.Name() != "" && (kind == reflect.Slice || kind == reflect.Map) {
+		// a named slice or map type that contains itself (type M map[string]M) is a component
+		// like a struct: stepping to its element leads straight back to it
+		kind = reflect.Invalid
+	}
+	switch kind {
 	case reflect.Ptr:
 		return g.generateCycleSchemaRef(t.Elem(), schema)
 	case reflect.Slice:
